@@ -383,7 +383,123 @@ func (x *Exec) execCall(instr ssa.Value, c *ssa.CallCommon, st *State, pc Term) 
 		x.setResult(instr, res)
 		return
 	}
+	if x.eng.externFor(calleeName(callee)) == nil && x.canInline(callee) {
+		x.inlineCall(instr, callee, args, st, pc, pos)
+		return
+	}
 	x.applyExtern(instr, calleeName(callee), callee.Signature.Results(), args, callee, st, pc, pos)
+}
+
+// canInline: a callee of the verified module that has neither a contract nor an extern line is executed in place when it is
+// loop-free, does not defer, start goroutines or recover, and is not (mutually) recursive within the inlining depth. This keeps
+// a refactoring that extracts a small helper from a function under contract decidable instead of UNDECIDED.
+func (x *Exec) canInline(callee *ssa.Function) bool {
+	if callee == nil || len(callee.Blocks) == 0 || callee.Pkg == nil || len(x.inlineStack) >= 4 {
+		return false
+	}
+	if !strings.HasPrefix(callee.Pkg.Pkg.Path(), "github.com/gethiox/HIDI") {
+		return false
+	}
+	for _, f := range x.inlineStack {
+		if f == callee {
+			return false
+		}
+	}
+	if callee == x.fn {
+		return false
+	}
+	for _, b := range callee.Blocks {
+		for _, s := range b.Succs {
+			if s.Dominates(b) {
+				return false // loop
+			}
+		}
+		for _, in := range b.Instrs {
+			switch in.(type) {
+			case *ssa.Defer, *ssa.Go, *ssa.Select:
+				return false
+			}
+		}
+	}
+	return true
+}
+
+func (x *Exec) inlineCall(instr ssa.Value, callee *ssa.Function, args []Term, st *State, pc Term, pos string) {
+	type saved struct {
+		fn       *ssa.Function
+		pkg      *types.Package
+		exitSt   map[*ssa.BasicBlock]*State
+		exitPC   map[*ssa.BasicBlock]Term
+		edgeCond map[[2]*ssa.BasicBlock]Term
+		loops    map[*ssa.BasicBlock]*loopInfo
+		forced   map[*ssa.BasicBlock]*edgeState
+		order    []*ssa.BasicBlock
+		rets     []retPoint
+		escapes  map[*ssa.Alloc]bool
+		defers   []deferRec
+		curCall  *ssa.CallCommon
+		curBlock int
+		rpOn     bool
+	}
+	sv := saved{x.fn, x.pkg, x.exitSt, x.exitPC, x.edgeCond, x.loops, x.forced, x.order, x.rets, x.escapes, x.defers, x.curCall, x.vc.curBlock, x.rpOn}
+	x.fn, x.pkg = callee, callee.Pkg.Pkg
+	x.exitSt, x.exitPC = map[*ssa.BasicBlock]*State{}, map[*ssa.BasicBlock]Term{}
+	x.edgeCond = map[[2]*ssa.BasicBlock]Term{}
+	x.forced = map[*ssa.BasicBlock]*edgeState{}
+	x.rets, x.defers = nil, nil
+	x.rpOn = false
+	x.computeEscapes()
+	for a, e := range sv.escapes {
+		x.escapes[a] = e
+	}
+	anc := x.vc.anc
+	x.computeOrder()
+	x.vc.anc = anc // obligations and facts inside the callee stay attributed to the caller's block
+	x.inlineStack = append(x.inlineStack, callee)
+	k := 0
+	for _, fv := range callee.FreeVars {
+		x.vals[fv] = args[k]
+		k++
+	}
+	for _, p := range callee.Params {
+		x.vals[p] = args[k]
+		k++
+	}
+	x.forced[callee.Blocks[0]] = &edgeState{cond: pc, st: st.clone()}
+	for _, b := range x.order {
+		x.execBlock(b)
+	}
+	rets := x.rets
+	x.inlineStack = x.inlineStack[:len(x.inlineStack)-1]
+	x.fn, x.pkg, x.exitSt, x.exitPC, x.edgeCond, x.loops, x.forced, x.order, x.rets, x.escapes, x.defers, x.curCall, x.rpOn = sv.fn, sv.pkg, sv.exitSt, sv.exitPC, sv.edgeCond, sv.loops, sv.forced, sv.order, sv.rets, sv.escapes, sv.defers, sv.curCall, sv.rpOn
+	x.vc.curBlock = sv.curBlock
+	x.dropped["call of "+calleeName(callee)+" at "+pos+": no contract - the body (loop-free) is executed in place"] = true
+	if len(rets) == 0 {
+		// the callee never returns (panics on every path): the rest of the caller's block is unreachable
+		x.vc.assume(not(pc), "callee "+calleeName(callee)+" does not return")
+		return
+	}
+	var edges []edgeState
+	for _, r := range rets {
+		edges = append(edges, edgeState{cond: r.pc, st: r.st})
+	}
+	merged := x.mergeStates(edges)
+	*st = *merged
+	var results []Term
+	for i := range rets[0].results {
+		r := rets[len(rets)-1].results[i]
+		for j := len(rets) - 2; j >= 0; j-- {
+			r = ite(rets[j].pc, rets[j].results[i], r)
+		}
+		results = append(results, x.vc.define("inl_result", r))
+	}
+	// a path of the callee that panics ends there: after the call one of the returning paths was taken
+	var pcs []Term
+	for _, r := range rets {
+		pcs = append(pcs, r.pc)
+	}
+	x.vc.assume(implies(pc, or(pcs...)), "after the call of "+calleeName(callee)+" one of its returning paths was taken")
+	x.setResult(instr, results)
 }
 
 // argValue: arguments that are addresses passed to value-semantics externs are passed by pointee value.
